@@ -110,8 +110,9 @@ func (iter *matrixIterator) Next() bool {
 }
 
 func (iter *matrixIterator) worker(ctx context.Context) {
-	defer func() { iter.catcher.Add(iter.chunks.Err()) }()
+	// deferred calls run last-in first-out: register the error, then close
 	defer close(iter.pipe)
+	defer func() { iter.catcher.Add(iter.chunks.Err()) }()
 
 	var payload []byte
 	var doc *birch.Document
